@@ -57,7 +57,10 @@ def bounded(tier, seed):
     for doc in ("---", "---\ntitle: never closed\nkey: value", "---\n", "\n\n---\nk: v", "---\n---", "---\na: b\n---", "x", "#", ">", "|", "```", "[^a]:",
                 "- [ ]", "1.", "<!--", "{%", "\\", "***", "  ", "\t", "\r", "a\r\nb", "", "\n\n", "\r\n", "\x0c", "\u00a0", "\u2028",
                 "a\\\n\\\nb", "\\\nfoo", "a  \n  \nb", "- x\\\n  \\\n  y", "> a\\\n> \\\n> b", "| a |\n|---|", "| a | b |\n|---|---|\n| 1 |", "[^f]:", "#", "# #", "```\n```",
-                "~~~", "1. \n2. ", "* [ ] ", "<b>", "a\u2003b", "{% t %}", "{% t", "<!-- x", "![", "[x](", "**", "`"):
+                "~~~", "1. \n2. ", "* [ ] ", "<b>", "a\u2003b", "{% t %}", "{% t", "<!-- x", "![", "[x](", "**", "`",
+                # inline containers inside other inline containers (the typography rewrites walk them)
+                "![*em* alt \"q\"](i.png)", "![**s** and [l](u) it's](i.png \"t\")", "# ![~~x~~ y...](i.png)", "| ![*a*](i) | \"b\" |\n|---|---|",
+                "[![*badge* 'x'](b.svg)](http://u.v)", "[*em* and `c` \"q\"...](u)", "*a **b ~~c `d` e~~ f** g*... \"h\"", "[^n]: ![*a*](i)\n\nx[^n]"):
         for o in (dict(width=88), dict(width=0, semantic=True), dict(width=1, smartquotes=True, ellipses=True, cleanups=True), dict(width=-5),
                   dict(width=30, semantic=True), dict(width=5, semantic=True, smartquotes=True)):
             try:
@@ -136,7 +139,7 @@ def bounded(tier, seed):
             "samples": [{"soup": "".join(rnd.choice(SOUP) for _ in range(20))}],
             "rule": "seeded Unicode soup (unbalanced delimiters, control characters, CR/LF mixes, NUL, U+2028, look-alikes of the internal placeholder tokens) of length 3-120 x "
                     "seeded option sets incl. widths -1/0/1/88/10^6 under a 10 s watchdog: returns, ends in a newline (Markdown "
-                    "mode), introduces no NUL; 52 degenerate documents (empty and whitespace-only ones, consecutive hard breaks, ragged tables, lone delimiters) (unclosed / empty frontmatter, lone delimiters) x 6 option sets likewise; code-block blank lines carry no trailing spaces; quick and thorough: the running time on 27 pumped families of two sizes (x4) in fill and semantic mode grows with an exponent <= 1.8 (bounded timing probe, repeated before it is reported); thorough: pumped families with a "
+                    "mode), introduces no NUL; 60 degenerate documents (incl. images / links whose text holds emphasis, links or code) (empty and whitespace-only ones, consecutive hard breaks, ragged tables, lone delimiters) (unclosed / empty frontmatter, lone delimiters) x 6 option sets likewise; code-block blank lines carry no trailing spaces; quick and thorough: the running time on 27 pumped families of two sizes (x4) in fill and semantic mode grows with an exponent <= 1.8 (bounded timing probe, repeated before it is reported); thorough: pumped families with a "
                     "fitted growth exponent; distinct = distinct outputs",
             "exhaustive": False, "bound": "%d strings" % n}
 
